@@ -40,6 +40,7 @@ func c06Configs() []c06Cfg {
 		{Name: "3x1/h1/small/skew", Powers: []int64{1, 1, 1}, Initial: 1, ChainID: "verif-c06-b", MaxBytes: 3000, EvMaxBytes: 1000, Skew: true},
 		{Name: "1/h5/default", Powers: []int64{10}, Initial: 5, ChainID: "c", MaxBytes: 22020096, EvMaxBytes: 1048576},
 		{Name: "30,1,1,1/h1/small", Powers: []int64{30, 1, 1, 1}, Initial: 1, ChainID: "verif-c06-f", MaxBytes: 3000, EvMaxBytes: 1000},
+		{Name: "20,15,10,10/h1/small", Powers: []int64{20, 15, 10, 10}, Initial: 1, ChainID: "verif-c06-g", MaxBytes: 3000, EvMaxBytes: 1000},
 		// thorough only from here
 		{Name: "1,2,3,4/h1/small", Powers: []int64{1, 2, 3, 4}, Initial: 1, ChainID: long, MaxBytes: 3000, EvMaxBytes: 1000},
 		{Name: "2x10/h5/small", Powers: []int64{10, 10}, Initial: 5, ChainID: "verif-c06-c", MaxBytes: 3000, EvMaxBytes: 1000},
@@ -50,19 +51,19 @@ func c06Configs() []c06Cfg {
 	if vr.Thorough() {
 		return all
 	}
-	return all[:5]
+	return all[:6]
 }
 
 func c06Styles() []c06Style {
 	all := []c06Style{
-		{c06PatAll, 0, 0}, {c06PatAbsentRev, 1, 1}, {c06PatNilEqual, 2, 0}, {c06PatAbsentByz, 1, 0}, {c06PatStale, 0, 0},
+		{c06PatAll, 0, 0}, {c06PatAbsentRev, 1, 1}, {c06PatNilEqual, 2, 0}, {c06PatAbsentByz, 1, 0}, {c06PatStale, 0, 0}, {c06PatAbsentBig, 1, 0},
 		// thorough only
 		{c06PatByzEarly, 2, 1}, {c06PatByzFuture, 1, 0}, {c06PatAll, 3, 1},
 	}
 	if vr.Thorough() {
 		return all
 	}
-	return all[:5]
+	return all[:6]
 }
 
 // step menu: quick uses the first c06QuickMenu entries
@@ -186,7 +187,7 @@ func TestVerifC06Block(t *testing.T) {
 		menus         []int
 		nCfg, nStyles int
 	}
-	quickPhase := c06Phase{"quick space", []int{c06QuickMenu, c06QuickMenu, 5}, 5, 5}
+	quickPhase := c06Phase{"quick space", []int{c06QuickMenu, c06QuickMenu, 5}, 6, 6}
 	phases := []c06Phase{quickPhase}
 	if vr.Thorough() {
 		phases = append(phases, c06Phase{"extension", []int{len(c06Menu), len(c06Menu), 9, 4}, len(cfgs), len(styles)})
